@@ -24,6 +24,15 @@ def main() -> int:
         print("usage: check <Cxx> [quick|thorough]")
         return 2
     pid = sys.argv[1]
+    replay = None
+    if "--replay" in sys.argv:
+        # every random choice of a run derives from (seed, property id): re-running the check with the seed and
+        # tier recorded in the replay file re-creates the same inputs on the CURRENT tree
+        path = sys.argv[sys.argv.index("--replay") + 1]
+        replay = json.load(open(path))
+        os.environ["VERIF_SEED"] = str(replay.get("seed", 0))
+        os.environ["VERIF_TIER"] = str(replay.get("tier", "quick"))
+        print(f"replaying {path}: seed={replay.get('seed')} tier={replay.get('tier')} kind={replay.get('kind')}", flush=True)
     tier, seed = common.tier_seed()
     if pid not in registry.PROPS:
         print(f"unknown or unclaimed property {pid}")
@@ -131,7 +140,12 @@ def main() -> int:
                          "specification on everything explored",
                  "examples": disagreements[:3]},
                 suffix="no-failing-input-found")
-    return run.finish()
+    rc = run.finish()
+    if replay is not None:
+        same = [v for v in getattr(run, 'records', []) if v.get("kind") == replay.get("kind") and
+                (replay.get("input") is None or v.get("input") == replay.get("input"))]
+        print(f"REPLAY {'reproduced' if same else 'not reproduced on the current tree'} ({len(run.violations)} violation(s) in this run)", flush=True)
+    return rc
 
 
 if __name__ == "__main__":
